@@ -425,8 +425,10 @@ def minimal_m_separator(
     for node in i:
         aug_G_p.remove_node(node)
 
+    # candidates: all admissible nodes that are anterior to x, y or i (a node that is anterior
+    # only to i can be needed to block a path that conditioning on i opens)
     z_prime = r.intersection(
-        _anterior(G_copy, {x, y}, directed_edge_name, undirected_edge_name)
+        _anterior(G_copy, nodeset, directed_edge_name, undirected_edge_name)
     ) - {
         x,
         y,
